@@ -318,6 +318,16 @@ class Dim:
                 return recv
             root = ast.unparse(f.value)
             if root == "fractions" and name == "Fraction": return args[0] if args and args[0][0] == "num" else num(0)
+            if name in ("isclose", "allclose") and root in ("math", "np", "numpy") and args:
+                # an absolute tolerance on a dimensional quantity is a scale-dependent decision
+                kw = {k.arg: k.value for k in e.keywords}
+                tol = kw.get("abs_tol", kw.get("atol"))
+                tolv = None if tol is None else (tol.value if isinstance(tol, ast.Constant) else "?")
+                has_abs = (tolv not in (None, 0, 0.0)) or (root != "math" and tol is None)     # numpy: atol defaults to 1e-8
+                d0 = args[0][1] if args[0][0] == "num" else None
+                if has_abs and d0 not in (None, 0, "C", "Z") and s.final:
+                    s.report(e, "isclose-abs-tol", d0, "C")
+                return UNK
             if root == "math" and name == "sqrt": return num(None if args[0][1] is None else args[0][1] if args[0][1] in ("C", "Z") else args[0][1] / 2)
             if root == "np" and name == "arctan2": return num(0)
             if root == "np" and name in ("dot", "inner") and len(args) == 2:
